@@ -7,7 +7,6 @@ FUNCTIONS = [
     "someip.sd.TimedStore.stop_all_for_address",
     "someip.sd.TimedStore.stop_all",
     "someip.sd.TimedStore._expired",
-    "someip.sd.TimedStore.entries",
 ]
 ASSUMPTIONS = [
     "event-loop model contracts/looplib.py (trusted): call_later arms a timer for now + delay that fires at most once, at its deadline, never if cancelled; call_soon is FIFO",
@@ -15,6 +14,7 @@ ASSUMPTIONS = [
     "'exactly once, t seconds after the most recent offer' follows from: refresh arms exactly one live timer for now + ttl and cancels the previous one (ob_refresh), explicit removal cancels it (ob_stop, ob_stop_all*), the store invariant (every live timer belongs to a present entry holding that handle) is preserved by every operation, and a firing timer removes and reports exactly its entry (ob_expired)",
 ]
 BOUNDED = ST.BOUNDED
-EXPLANATION = "per-operation postconditions and the store invariant are discharged by z3 for all keys, addresses, TTLs and times; the number of OTHER entries in the store is bounded (see bounded_stand_ins), hence level other"
+LEVEL = "proof"
+EXPLANATION = "per-operation postconditions and the store invariant are discharged for all keys, addresses, TTLs and times over a store with arbitrarily many entries (lazily materialised contents: what an operation does not touch is untouched by construction, what it iterates over is verified for one arbitrary element by loop contract)"
 HARNESSES = ST.STORE_OBLIGATIONS
-EXPECT_COVERS = {"ob_refresh": ["forever", "finite", "replaces-timer"], "ob_stop": ["absent", "present"], "ob_stop_all_for_address": ["two-entries"]}
+EXPECT_COVERS = {"ob_refresh": ["forever", "finite", "replaces-timer"], "ob_stop": ["absent", "present"], "ob_stop_all_for_address": ["iteration", "timer", "exit"], "ob_stop_all": ["exit", "entry", "address-done"]}
